@@ -307,6 +307,7 @@ func AERs(bc *core.Blockchain, blockHash util.Uint256, txs []*transaction.Transa
 			if stripContainer {
 				a.Container = util.Uint256{}
 			}
+			a.Invocations = nil // node-local application log extension (Ledger.SaveInvocations)
 			b, err := json.Marshal(a)
 			if err != nil {
 				d[fmt.Sprintf("%s/%d", name, i)] = "ERR " + err.Error()
